@@ -5,8 +5,7 @@
 use crate::gen::*;
 use crate::rng::*;
 use crate::val::*;
-use geonum::traits::*;
-use geonum::{Angle, GeoCollection, Geonum};
+use geonum::{Angle, Geonum};
 use std::f64::consts::PI;
 
 pub struct Clause {
@@ -289,7 +288,7 @@ fn c07_history(v: &[Val]) -> Result<bool, String> {
 }
 
 pub fn clauses() -> Vec<Clause> {
-    vec![
+    let mut v = vec![
         Clause { prop: "C03", name: "sum", sig: "AA", gen: g_aa, check: c03_sum },
         Clause { prop: "C03", name: "identity", sig: "A", gen: g_a, check: c03_identity },
         Clause { prop: "C03", name: "assoc", sig: "AAA", gen: g_aaa, check: c03_assoc },
@@ -300,7 +299,10 @@ pub fn clauses() -> Vec<Clause> {
         Clause { prop: "C07", name: "copy", sig: "GG", gen: g_gg, check: c07_copy },
         Clause { prop: "C07", name: "opposite", sig: "AA", gen: g_opp, check: c07_opposite },
         Clause { prop: "C07", name: "history", sig: "GL", gen: g_hist, check: c07_history },
-    ]
+    ];
+    v.extend(crate::oracle2::clauses2());
+    v.extend(crate::oracle3::clauses3());
+    v
 }
 
 pub fn find(prop: &str, name: &str) -> Option<Clause> {
